@@ -38,7 +38,7 @@ def fbool(value):
 
 def fboolorfloat(value):
     """Bool or float"""
-    if isinstance(value, (str, bool)) or value == 0:
+    if isinstance(value, (str, bool, np.bool_)) or value == 0:
         return fbool(value)
     elif isinstance(value, (int, float)):
         return float(value)
